@@ -818,7 +818,11 @@ class SymClient(Client):
             for _k in range(max(opened, 0)):
                 tr2 = tr2 + (Event('loopexit', 'return', (), (), (), self.site_line or call.lineno, s2.conds, fi.key),)
             s2 = SymState(s2.env, s2.heap, s2.conds, tr2, s2.ret)
-            outs.append(SymState(s.env, s2.heap, s2.conds, s2.trail, s2.ret or 'None'))
+            o_new = SymState(s.env, s2.heap, s2.conds, s2.trail, s2.ret or 'None')
+            rk_ = '$ret:%d:%d' % (getattr(call, 'lineno', 0), getattr(call, 'col_offset', 0))
+            for pre_ in ('?t:', '?n:'):
+                o_new = o_new.set(pre_ + rk_, s2.get(pre_ + '$ret') or '')
+            outs.append(o_new)
         for s2 in o.fall:
             outs.append(SymState(s.env, s2.heap, s2.conds, s2.trail, 'None'))
         for s2, e in o.exc:
@@ -1000,11 +1004,14 @@ class SymClient(Client):
             s = s.set(t.id, term)
             # what is known about the truth of the value the name holds (see atom_branch) travels with a plain copy and
             # ends with any other assignment
-            mark = s.get('?t:' + value.id) if isinstance(value, ast.Name) else None
-            if mark in ('+', '-'):
-                s = s.set('?t:' + t.id, mark)
-            elif s.get('?t:' + t.id):
-                s = s.set('?t:' + t.id, '')
+            src_ = value.id if isinstance(value, ast.Name) else \
+                '$ret:%d:%d' % (getattr(value, 'lineno', 0), getattr(value, 'col_offset', 0)) if isinstance(value, ast.Call) else None
+            for pre_ in ('?t:', '?n:'):
+                mark = s.get(pre_ + src_) if src_ is not None else None
+                if mark in ('+', '-'):
+                    s = s.set(pre_ + t.id, mark)
+                elif s.get(pre_ + t.id):
+                    s = s.set(pre_ + t.id, '')
             return s
         if isinstance(t, (ast.Tuple, ast.List)):
             velts = None
@@ -1078,6 +1085,9 @@ class SymClient(Client):
             return [x.with_ret('True') for x in t] + [x.with_ret('False') for x in f]
         outs = []
         for s1 in self._eval(st.value, s):
+            if isinstance(st.value, ast.Name):
+                for pre_ in ('?t:', '?n:'):
+                    s1 = s1.set(pre_ + '$ret', s1.get(pre_ + st.value.id) or '')
             outs.append(s1.with_ret(self.value_term(st.value, s1)))
         return outs
 
@@ -1128,6 +1138,12 @@ class SymClient(Client):
                 t_mark, f_mark = ('-', '+') if neg_ else ('+', '-')
                 tt = [x.set('?t:' + base_.id, t_mark) for x in tt]
                 ff = [x.set('?t:' + base_.id, f_mark) for x in ff]
+            nt_ = _none_test_of_local(base_, s1)
+            if nt_ is not None and not inlined:
+                nm_, pos_ = nt_
+                is_none_on_true = pos_ != neg_
+                tt = [x.set('?n:' + nm_, '+' if is_none_on_true else '-') for x in tt]
+                ff = [x.set('?n:' + nm_, '-' if is_none_on_true else '+') for x in ff]
             outs_t.extend(tt)
             outs_f.extend(ff)
         return outs_t, outs_f
@@ -1409,6 +1425,17 @@ def _never_none(term: str) -> bool:
 _TOKEN2_RE = __import__('re').compile(r'^[A-Z]+_L\d+_\d+$')
 
 
+def _none_test_of_local(test: ast.expr, s: SymState):
+    """(name, True for ``is None`` / False for ``is not None``) when the test compares a local with None"""
+    if not (isinstance(test, ast.Compare) and len(test.ops) == 1 and isinstance(test.ops[0], (ast.Is, ast.IsNot, ast.Eq, ast.NotEq))):
+        return None
+    l, r = test.left, test.comparators[0]
+    other = l if isinstance(r, ast.Constant) and r.value is None else r if isinstance(l, ast.Constant) and l.value is None else None
+    if not isinstance(other, ast.Name) or s.get(other.id) is None:
+        return None
+    return other.id, isinstance(test.ops[0], (ast.Is, ast.Eq))
+
+
 def _decide_none_test(test: ast.expr, client: 'SymClient', s: SymState) -> Optional[bool]:
     """``x is None`` / ``x is not None`` / ``x == None`` where the term of x is the constant None or cannot be None
     (the value an inlined helper returned on this path): the branch is decided, the other one is infeasible."""
@@ -1427,6 +1454,10 @@ def _decide_none_test(test: ast.expr, client: 'SymClient', s: SymState) -> Optio
     positive = isinstance(test.ops[0], (ast.Is, ast.Eq))
     if t == 'None':
         return positive
+    # the same stored value was compared with None before on this path (in this function, or in the helper it came back from)
+    nm = s.get('?n:' + other.id)
+    if nm in ('+', '-'):
+        return (nm == '+') == positive
     if s.get('?nn:' + other.id) == '1' and not any(
             isinstance(n_, ast.Name) and n_.id == other.id and isinstance(n_.ctx, (ast.Store, ast.Del)) for n_ in ast.walk(client.f.node)):
         return not positive
